@@ -39,7 +39,11 @@ RULE = ("case = (site kind [114 single-line raising forms: calls in every expres
         "top-level], filler before/after at every level [text lines, blank lines, multi-line tags/"
         "expressions/strings/comments, '-' stripped line breaks, raw blocks] with \\n, \\r\\n, \\r "
         "mixed, env [default | trim_blocks | lstrip_blocks | both] x [no finalize | raising-finalize "
-        "hook], loader [dict | filesystem], sync | async). Runtime cases first load every template "
+        "hook], loader [dict | filesystem | for runtime cases also PRECOMPILED: the whole template set "
+        "compiled by an identically configured environment with Environment.compile_templates into a "
+        "directory / stored zip / deflated zip and loaded back through ModuleLoader, incl. sites whose "
+        "tag line abuts the next tag's line with no template data in between ('-' control, "
+        "trim_blocks)], sync | async). Runtime cases first load every template "
         "of the set with get_template: that must succeed (the templates are well-formed), the error "
         "belongs to rendering. distinct = distinct (part, site kind, ws control, wrapper chain, filler "
         "feature set before the site, env, loader, mode)")
@@ -61,30 +65,41 @@ ASSUMPTIONS = [
     "the template loads, rendering raises TemplateRuntimeError, and the line to report is the line "
     "of the tag that uses the filter / test; such uses are given positional arguments only",
     "for dict-loaded templates every template frame carries the same pseudo filename, so only the "
-    "line (not which template) is checked there; the filesystem loader checks both",
+    "line (not which template) is checked there; the filesystem loader checks both; for precompiled "
+    "templates the template is identified by Template.filename of the ModuleLoader-loaded template "
+    "(its module file), the line is the line of the ORIGINAL template source",
 ]
 NSHARDS = {"quick": 16, "thorough": 16}
 BUDGET_S = {"quick": 14, "thorough": 360}
 FLOORS = {
     "quick": {"evaluations": 3000, "distinct": 2000,
               "counters": {"runtime_line_checks": 1500, "syntax_line_checks": 800,
-                           "fs_filename_checks": 300, "async_cases": 400,
+                           "fs_filename_checks": 130, "async_cases": 400,
                            "site_after_stripped_newlines": 300, "crossed_template": 500,
                            "multiline_before_site": 2500, "const_site_checks": 250,
                            "finalize_env_cases": 250, "load_checks": 2000,
                            # 711 / 453 in a time-boxed quick run at load
                            "missing_filter_in_conditional_site_checks": 150,
-                           "missing_test_in_conditional_site_checks": 100}},
+                           "missing_test_in_conditional_site_checks": 100,
+                           # precompiled (compile_templates -> ModuleLoader) runtime cases:
+                           # 1581 / 525 / 1056 / 1581 / 203 in a time-boxed quick run at load
+                           "precompiled_line_checks": 400, "precompiled_dir_line_checks": 130,
+                           "precompiled_zip_line_checks": 260, "precompiled_filename_checks": 400,
+                           "precompiled_site_abuts_next_tag_line": 50}},
     # thorough: 960k evaluations / 913k distinct in 281 s (count-bounded) at load
     # ~1x, 417k / 403k (time-boxed) at load ~4x; floors = 1/4 of the latter
     "thorough": {"evaluations": 100000, "distinct": 95000,
                  "counters": {"runtime_line_checks": 65000, "syntax_line_checks": 32000,
-                              "fs_filename_checks": 21000, "async_cases": 32000,
+                              "fs_filename_checks": 11000, "async_cases": 32000,
                               "site_after_stripped_newlines": 24000, "crossed_template": 44000,
                               "multiline_before_site": 95000, "const_site_checks": 15000,
                               "finalize_env_cases": 12000, "load_checks": 100000,
                               "missing_filter_in_conditional_site_checks": 6000,
-                              "missing_test_in_conditional_site_checks": 4000}},
+                              "missing_test_in_conditional_site_checks": 4000,
+                              "precompiled_line_checks": 32000, "precompiled_dir_line_checks": 10500,
+                              "precompiled_zip_line_checks": 21000,
+                              "precompiled_filename_checks": 32000,
+                              "precompiled_site_abuts_next_tag_line": 4000}},
 }
 
 SITE = "\x00SITE\x00"
@@ -588,7 +603,10 @@ def gen_case(r, part):
         "templates": g.templates, "site_tpl": site_tpl, "line": line,
         "stripped_before": stripped_before, "feat_before": sorted(g.feat_before),
         "env": r.choice(["default", "default", "trim", "lstrip", "trim+lstrip"]),
-        "loader": r.choice(["dict", "dict", "fs"]),
+        # runtime cases also go through templates PRECOMPILED with Environment.compile_templates
+        # (directory / zip archive target) and loaded back with ModuleLoader
+        "loader": r.choice(["dict", "dict", "fs", "module-dir", "module-zip", "module-zip-deflated"]
+                           if part == "runtime" else ["dict", "dict", "fs"]),
         "mode": r.choice(["sync", "sync", "async"]),
         "finalize": needs_finalize or r.random() < 0.15,
     }
@@ -611,21 +629,61 @@ def make_env(case, tmpdir):
         loader = jinja2.FileSystemLoader(tmpdir)
     else:
         loader = jinja2.DictLoader(dict(case["templates"]))
-    env = jinja2.Environment(loader=loader, undefined=jinja2.StrictUndefined,
-                             extensions=["jinja2.ext.do", "jinja2.ext.i18n"], enable_async=case["mode"] == "async",
-                             cache_size=50, auto_reload=False, **kw)
-    env.install_null_translations()
-    env.globals.update(nsg=jinja2.utils.Namespace(), boom=boom, ident=lambda v: v, obj=Obj(), objitem=ObjItem(), zero=0, items=[1, 2],
-                       finvar="FINBOOM")
-    env.filters["boomf"] = boom
-    env.tests["boomt"] = boom
+
+    def build(loader):
+        env = jinja2.Environment(loader=loader, undefined=jinja2.StrictUndefined,
+                                 extensions=["jinja2.ext.do", "jinja2.ext.i18n"],
+                                 enable_async=case["mode"] == "async",
+                                 cache_size=50, auto_reload=False, **kw)
+        env.install_null_translations()
+        env.globals.update(nsg=jinja2.utils.Namespace(), boom=boom, ident=lambda v: v, obj=Obj(),
+                           objitem=ObjItem(), zero=0, items=[1, 2], finvar="FINBOOM")
+        env.filters["boomf"] = boom
+        env.tests["boomt"] = boom
+        return env
+
+    env = build(loader)
+    if case["loader"].startswith("module-"):
+        # documented deployment path (api.rst "ModuleLoader", Environment.compile_templates):
+        # an identically configured environment precompiles the whole template set, a second
+        # one loads the compiled modules only
+        if case["loader"] == "module-dir":
+            target, zmode = os.path.join(tmpdir, "compiled"), None
+        else:
+            target = os.path.join(tmpdir, "compiled.zip")
+            zmode = "deflated" if case["loader"].endswith("deflated") else "stored"
+        env.compile_templates(target, zip=zmode, ignore_errors=False)
+        env = build(jinja2.ModuleLoader(target))
     return env
+
+
+def site_abuts_next_tag_line(case):
+    """Source-text classification (documented whitespace control only): the line holding the
+    site ends with a tag whose trailing line break is removed ('-' on the closing delimiter, a
+    block tag under trim_blocks, or '-' on the opening delimiter of the next tag) and the next
+    line starts with a tag -- i.e. no template data separates the site's tag from the next one."""
+    src = case["templates"][case["site_tpl"]]
+    lines = _nl_re.split(src)
+    i = case["line"] - 1
+    if i + 1 >= len(lines):
+        return False
+    cur, nxt = lines[i], lines[i + 1]
+    nxt_s = nxt.lstrip(" \t")
+    if not nxt_s.startswith(("{%", "{{")):
+        return False
+    if nxt_s.startswith(("{%-", "{{-")) and cur.rstrip(" \t").endswith(("%}", "}}")):
+        return True
+    if nxt_s != nxt and not ("lstrip" in case["env"] and nxt_s.startswith("{%")):
+        return False
+    if cur.endswith(("-%}", "-}}")):
+        return True
+    return "trim" in case["env"] and cur.endswith("%}")
 
 
 def check_case(ctx, case):
     import jinja2
 
-    tmpdir = tempfile.mkdtemp(prefix="c35_") if case["loader"] == "fs" else None
+    tmpdir = tempfile.mkdtemp(prefix="c35_") if case["loader"] != "dict" else None
     try:
         _check(ctx, case, tmpdir, jinja2)
     finally:
@@ -723,8 +781,14 @@ def _check(ctx, case, tmpdir, jinja2):
                       f"{desc}: innermost template frame is {inner.filename}:{inner.lineno}, the "
                       f"raising construct is on line {case['line']} of "
                       f"{case['templates'][case['site_tpl']]!r}", case)
-    if case["loader"] == "fs":
-        ctx.count("fs_filename_checks")
+    if case["loader"].startswith("module-"):
+        ctx.count("precompiled_line_checks")
+        ctx.count("precompiled_zip_line_checks" if "zip" in case["loader"]
+                  else "precompiled_dir_line_checks")
+        if site_abuts_next_tag_line(case):
+            ctx.count("precompiled_site_abuts_next_tag_line")
+    if case["loader"] != "dict":
+        ctx.count("fs_filename_checks" if case["loader"] == "fs" else "precompiled_filename_checks")
         if inner.filename != names[case["site_tpl"]]:
             ctx.violation(f"runtime-filename:{mech}",
                           f"{desc}: innermost template frame names {inner.filename}, the raising "
